@@ -82,7 +82,10 @@ WEIRD_NAMES = ["a", "b", "ab", "a::b", "a::b::c", "b::", "x y", "é", "", "--cop
                "${a}", "\"q\"", "#h", "1", "true", "\U0001F986", "A", "a.b"]
 IDENT = ["a", "b", "ab", "a::b", "a::b::c", "b::", "1", "true", "A", "a.b", "scope::x"]
 WEIRD_VALUES = ["1", "", "a", "true", "false", "a b", " lead", "trail ", "${a}", "%{a}", "\"", "\\", "#c", "x\ny", "--copy",
-                "handle:x", "é\U0001F986", "0", "\t"]
+                "handle:x", "é\U0001F986", "0", "\t",
+                # words that are keywords elsewhere: a value is a value (seed C11-w6-m2: `x = set or` became an error because the
+                # single-value form was folded into the `or`-chain parser)
+                "or", "and", "OR", "not", "(", ")", "=", "in", "end"]
 
 
 def rand_history(rng, maxlen, maxdepth):
